@@ -179,11 +179,18 @@ def theorems_in(vfile):
     return re.findall(r"^\s*Theorem\s+(\w+)", txt, flags=re.M)
 
 
-def property_assumptions(prop):
-    """Compile Props/Properties_<prop>.v afresh (coqc prints the Print Assumptions output)
+def property_files(prop):
+    """Props/Properties_<prop>.v and Props/Properties_<prop>_<part>.v"""
+    cq = os.path.join(VERIF, "coq", "Props")
+    fs = sorted(glob.glob(os.path.join(cq, "Properties_%s.v" % prop)) +
+                glob.glob(os.path.join(cq, "Properties_%s_*.v" % prop)))
+    return fs
+
+
+def property_assumptions(v):
+    """Compile one property file afresh (coqc prints the Print Assumptions output)
     and return {theorem: [axioms]} plus raw log."""
     cq = os.path.join(VERIF, "coq")
-    v = os.path.join(cq, "Props", "Properties_%s.v" % prop)
     rc, out = sh(["coqc", "-Q", cq, "CrabV", "-w", "-notation-overridden,-deprecated", v],
                  timeout=1200, cwd=cq)
     ths = theorems_in(v)
@@ -323,30 +330,37 @@ class Report:
 # ---------------------------------------------------------------- generic steps
 
 def prove(rep, extra_targets=()):
-    """Step 1 of every check: build the property file, scan for forbidden tokens, collect
-    Print Assumptions.  Any failure is a violation (no failing input: the proof is what
-    broke)."""
+    """Step 1 of every check: build the property files Props/Properties_<id>*.v, scan for
+    forbidden tokens, collect Print Assumptions.  Any failure is a violation (no failing
+    input: the proof is what broke)."""
     prop = rep.prop
-    tgt = "Props/Properties_%s.vo" % prop
-    rc, out = coq_make([tgt] + list(extra_targets))
-    ths = theorems_in(os.path.join(VERIF, "coq", "Props", "Properties_%s.v" % prop))
+    files = property_files(prop)
+    tgts = ["Props/" + os.path.basename(f)[:-2] + ".vo" for f in files]
+    ths = []
+    for f in files:
+        ths += theorems_in(f)
     rep.cov["obligations"] = len(ths)
-    rep.cov["checker_cmd"] = "make -C coq %s (coqc 8.16.1, full .vo) + coqc Props/Properties_%s.v for Print Assumptions" % (tgt, prop)
+    rep.cov["checker_cmd"] = "make -C coq %s (coqc 8.16.1, full .vo) + coqc on each property file for Print Assumptions" % " ".join(tgts)
+    rep.cov["discharged"] = 0
+    if not files:
+        rep.violation("proof", "no property file for %s" % prop, False)
+        return False
+    rc, out = coq_make(tgts + list(extra_targets))
     if rc != 0:
-        rep.cov["discharged"] = 0
-        rep.violation("proof", "theorem file %s no longer compiles:\n%s" % (tgt, out[-3000:]), False)
+        rep.violation("proof", "theorem files %s no longer compile:\n%s" % (tgts, out[-3000:]), False)
         return False
     bad = forbidden_tokens()
     if bad:
-        rep.cov["discharged"] = 0
         rep.violation("forbidden", "forbidden declarations in the development:\n" + "\n".join(bad), False)
         return False
-    rc, out, ass, ths = property_assumptions(prop)
-    if rc != 0:
-        rep.cov["discharged"] = 0
-        rep.violation("proof", "Properties_%s.v does not compile:\n%s" % (prop, out[-3000:]), False)
-        return False
     allowed = set(json.load(open(os.path.join(VERIF, "checks", "allowed_axioms.json"))).get(prop, []))
+    ass = {}
+    for f in files:
+        rc, out, a1, _ = property_assumptions(f)
+        if rc != 0:
+            rep.violation("proof", "%s does not compile:\n%s" % (f, out[-3000:]), False)
+            return False
+        ass.update(a1)
     unexpected = {t: [a for a in ax if a not in allowed] for t, ax in ass.items()}
     unexpected = {t: a for t, a in unexpected.items() if a}
     rep.cov["theorems"] = {t: (ass.get(t) if ass.get(t) else "Closed under the global context")
